@@ -664,20 +664,72 @@ Print Assumptions C12_generic_reader_reads_secrets_writer_bytes.
 (* ================================================================== *)
 (* model/JsonKeyset.v reads the JSON text of a tinkpb.Keyset / EncryptedKeyset as
    keyset.NewJSONReader does (protojson.Unmarshal with default options: the
-   tokenizer and value parser of model/Json.v, then the two schemas) and prints
-   such messages in a canonical form of its own (protojson's output is
-   deliberately unstable: only what the reader makes of a text matters);
-   model/JsonKeysetC12.v carries messages and handles of model/Serial.v through
-   it.  (Imported here, after the statements above: these files reuse names.) *)
+   tokenizer and value parser of model/Json.v in its protojson-integer-path
+   variant, then the two schemas) and prints such messages in TWO forms: a
+   canonical form of its own (json_text_of_*: enums as NUMBERS, URL-alphabet
+   unpadded base64 - the opposite of protojson.Marshal at every choice) and the
+   form protojson.Marshal gives with the options of keyset.NewJSONWriter
+   (json_text_pj_of_*: enum NAMES, standard padded base64, every field present,
+   unset key data null; without protojson's random white space and with the
+   model's string escapes - the harness compares this text with Tink's writer
+   output modulo those two).  model/JsonKeysetC12.v carries messages and handles
+   of model/Serial.v through both (write_*_json, write_*_json_pj).  The read
+   side of the round trips is also stated for ANY text the reader reads as the
+   message.  (Imported here, after the statements above: these files reuse names.) *)
 From Tink Require Import JsonKeyset JsonKeysetProofs JsonKeysetC12 JsonKeysetC12Proofs.
 
-(* every message of the printer's domain (numbers below 2^32, UTF-8 type URLs,
-   byte-string values) is read back from its text *)
+(* every message of the printers' domain (numbers below 2^32, UTF-8 type URLs,
+   byte-string values) is read back from its text - the model's canonical form *)
 Theorem C12_json_print_then_read :
   (forall ks, keyset_ok ks = true -> keyset_of_json_text (json_text_of_keyset ks) = Some ks)
   /\ (forall e, encrypted_ok e = true -> encrypted_of_json_text (json_text_of_encrypted e) = Some e).
 Proof. split; [exact keyset_text_roundtrip|exact encrypted_text_roundtrip]. Qed.
 Print Assumptions C12_json_print_then_read.
+
+(* ... and the form protojson.Marshal gives it (enum names through the name
+   tables and name_lookup, standard padded base64 through the padded / standard
+   branch of go_b64, null for an unset key data / keyset info): the three name
+   tables are consistent (every entry is found under its name), the standard
+   padded encoding of every byte string is decoded by protojson's bytes rule *)
+Theorem C12_json_protojson_style_print_then_read :
+  (forall ks, keyset_ok ks = true -> keyset_of_json_text (json_text_pj_of_keyset ks) = Some ks)
+  /\ (forall e, encrypted_ok e = true -> encrypted_of_json_text (json_text_pj_of_encrypted e) = Some e)
+  /\ (forall v, Bytes.wfb v -> pj_bytes (b64_std_encode v) = Some v)
+  /\ (forall names e, names_ok names = true -> e < JsonKeyset.two32 -> enum_of_json names (enum_pj names e) = Some e)
+  /\ names_ok status_names = true /\ names_ok prefix_names = true /\ names_ok material_names = true.
+Proof.
+  split; [exact keyset_pj_text_roundtrip|]. split; [exact encrypted_pj_text_roundtrip|].
+  split; [exact pj_bytes_std_encode|]. split; [exact enum_of_pj|].
+  split; [exact status_names_ok|]. split; [exact prefix_names_ok|exact material_names_ok].
+Qed.
+Print Assumptions C12_json_protojson_style_print_then_read.
+
+(* EVERY enum name of the three tables in one text of protojson's form (six
+   keys: UNKNOWN_STATUS ENABLED DISABLED DESTROYED; UNKNOWN_PREFIX TINK LEGACY
+   RAW CRUNCHY WITH_ID_REQUIREMENT; UNKNOWN_KEYMATERIAL SYMMETRIC
+   ASYMMETRIC_PRIVATE ASYMMETRIC_PUBLIC REMOTE; numbers 7 and -1 where there is no
+   name; null key data; base64 with 0, 1, 2 padding characters and '+' '/'):
+   the printer produces exactly the literal text EnumNamesExample.text, and the
+   reader reads that text as the message; the same for an EncryptedKeyset; each
+   table read through name_lookup gives back its values; the dangling exponent
+   marker is read as the number (bare and string form), refused at the end of
+   the string form and with a sign, and refused by the C09 parser *)
+Example C12_json_every_enum_name :
+  keyset_ok EnumNamesExample.ks = true
+  /\ json_text_pj_of_keyset EnumNamesExample.ks = EnumNamesExample.text
+  /\ keyset_of_json_text EnumNamesExample.text = Some EnumNamesExample.ks
+  /\ encrypted_ok EnumNamesExample.info = true
+  /\ json_text_pj_of_encrypted EnumNamesExample.info = EnumNamesExample.info_text
+  /\ encrypted_of_json_text EnumNamesExample.info_text = Some EnumNamesExample.info
+  /\ map (fun k => jk_status k) (jks_keys EnumNamesExample.ks) = [0; 1; 2; 3; 7; 4294967295]
+  /\ map (fun k => jk_prefix k) (jks_keys EnumNamesExample.ks) = [0; 1; 2; 3; 4; 5]
+  /\ map (fun p => name_lookup status_names (fst p)) status_names = map (fun p => Some (snd p)) status_names
+  /\ map (fun p => name_lookup prefix_names (fst p)) prefix_names = map (fun p => Some (snd p)) prefix_names
+  /\ map (fun p => name_lookup material_names (fst p)) material_names = map (fun p => Some (snd p)) material_names.
+Proof.
+  destruct EnumNamesExample.facts as (A & B & C & D & E & F & G & H & I & J & K & _).
+  repeat (split; [assumption|]). assumption.
+Qed.
 
 (* tinkpb.Keyset through the JSON writer and reader: every well-formed proto
    keyset (the domain of C12_proto_keyset_roundtrip) whose key values are byte
@@ -689,15 +741,50 @@ Theorem C12_json_proto_keyset_roundtrip :
 Proof. exact proto_keyset_json_roundtrip. Qed.
 Print Assumptions C12_json_proto_keyset_roundtrip.
 
-(* insecurecleartextkeyset.Write then Read with the JSON writer and reader gives
-   the same handle back (C12_cleartext_roundtrip for JSON) *)
+(* The READ side, for ANY text: whatever text the JSON reader reads as the proto
+   keyset of a well-formed handle - whichever names, enum forms, base64 alphabet,
+   padding, white space, member order, escapes it uses; in particular the text
+   Tink's writer (protojson.Marshal) really emits, which is not modelled byte
+   for byte - insecurecleartextkeyset.Read gives the handle back; the same for
+   the encrypted form (any text read as an EncryptedKeyset whose ciphertext is
+   the AEAD encryption of the binary keyset) *)
+Theorem C12_json_read_any_text_of_the_handle :
+  forall K ser_k par_k,
+    (forall (es : list (entry K)) ks text,
+       wf_handle K ser_k par_k es -> entries_to_proto_keyset K ser_k es = Some ks ->
+       read_keyset_json text = Some ks -> read_cleartext_json K par_k text = Some es)
+    /\ (forall (aead_enc : bytes -> bytes -> bytes) (aead_dec : bytes -> bytes -> option bytes),
+         (forall ad p, aead_dec ad (aead_enc ad p) = Some p) ->
+         forall (es : list (entry K)) ks ad text e,
+           wf_handle K ser_k par_k es -> entries_to_proto_keyset K ser_k es = Some ks ->
+           N.of_nat (length (write_keyset ks)) < 2 ^ 64 ->
+           encrypted_of_json_text text = Some e -> je_ct e = aead_enc ad (write_keyset ks) ->
+           read_encrypted_json K par_k aead_dec text ad = Some es).
+Proof.
+  intros K ser_k par_k. split; [exact (json_cleartext_read_any_text K ser_k par_k)|].
+  intros enc dec AC. exact (json_encrypted_read_any_text K ser_k par_k enc dec AC).
+Qed.
+Print Assumptions C12_json_read_any_text_of_the_handle.
+
+(* The handle written as JSON TEXT BY THE MODEL'S PRINTERS and read by the JSON
+   reader gives the same handle back (C12_cleartext_roundtrip for JSON): for the
+   model's canonical form (write_cleartext_json: enum numbers, URL unpadded
+   base64) and for the form of protojson.Marshal (write_cleartext_json_pj: enum
+   names, standard padded base64).  This is NOT a statement about the bytes
+   insecurecleartextkeyset.Write emits: that text is protojson's (random white
+   space, its own escapes); the harness compares it with write_*_json_pj modulo
+   those two and feeds it to the model's reader (jt-tink-writer lines), and
+   C12_json_read_any_text_of_the_handle covers its read side. *)
 Theorem C12_json_cleartext_roundtrip :
   forall K ser_k par_k (es : list (entry K)) text,
     wf_handle K ser_k par_k es ->
     (forall ks, entries_to_proto_keyset K ser_k es = Some ks -> values_are_bytes ks = true) ->
-    write_cleartext_json K ser_k es = Some text ->
+    (write_cleartext_json K ser_k es = Some text \/ write_cleartext_json_pj K ser_k es = Some text) ->
     read_cleartext_json K par_k text = Some es.
-Proof. exact json_cleartext_roundtrip. Qed.
+Proof.
+  intros K ser_k par_k es text W V [H|H];
+    [exact (json_cleartext_roundtrip K ser_k par_k es text W V H)|exact (json_cleartext_pj_roundtrip K ser_k par_k es text W V H)].
+Qed.
 Print Assumptions C12_json_cleartext_roundtrip.
 
 (* Handle.WriteWithAssociatedData then keyset.ReadWithAssociatedData, JSON: the
@@ -708,11 +795,15 @@ Theorem C12_json_encrypted_roundtrip :
     (forall ad p, aead_dec ad (aead_enc ad p) = Some p) ->
     forall (es : list (entry K)) ad text,
       wf_handle K ser_k par_k es ->
-      write_encrypted_json K ser_k aead_enc es ad = Some text ->
+      (write_encrypted_json K ser_k aead_enc es ad = Some text \/ write_encrypted_json_pj K ser_k aead_enc es ad = Some text) ->
       (forall ks, entries_to_proto_keyset K ser_k es = Some ks ->
          N.of_nat (length (write_keyset ks)) < 2 ^ 64 /\ bytes_okb (aead_enc ad (write_keyset ks)) = true) ->
       read_encrypted_json K par_k aead_dec text ad = Some es.
-Proof. intros K ser_k par_k enc dec AC es ad text. apply json_encrypted_roundtrip. exact AC. Qed.
+Proof.
+  intros K ser_k par_k enc dec AC es ad text W [H|H] B;
+    [exact (json_encrypted_roundtrip K ser_k par_k enc dec AC es ad text W H B)
+    |exact (json_encrypted_pj_roundtrip K ser_k par_k enc dec AC es ad text W H B)].
+Qed.
 Print Assumptions C12_json_encrypted_roundtrip.
 
 (* at the registry (the composition with C12_registry_entries_roundtrip): for
